@@ -5,6 +5,11 @@ ROOT = os.path.dirname(os.path.dirname(os.path.abspath(__file__)))
 ALL = ["C%02d" % i for i in range(1, 21)]
 
 CHECKS = {
+ "C16": dict(
+   technique="TLA+ BigNum library (self-tested) + BigIntApi specification of every exported 128/256-bit operation; real calls of bigint.c on TLC-enumerated limb-boundary operand patterns and seeded random operands are logged and validated by TLC (division checked by q*b+r=a)",
+   category="model_checking",
+   text="Every logged call of the real C functions (by-value and _ptr entry points, signed and unsigned, 128 and 256 bit) must be the exact result modulo 2^N per the specification; operands cover all 2-limb patterns over six boundary classes and a 4-limb cover (quick: sample; thorough: all, ~227k calls).",
+   note="Division by zero is not generated; the driver's printing of operands and the regrouping of hex into BigNum digits are trusted; built with ASan/UBSan."),
  "C17": dict(
    technique="TLA+ abstract map/list spec (RtColl); TLC-enumerated transition histories and simulated long histories replayed into the real C runtime under ASan/UBSan; the logged replies and full projected state after every call validated by TLC (RtCollTrace)",
    category="model_checking",
